@@ -47,7 +47,7 @@ def enumTyTableOK (env : Env) (F : GFile) (n : String) : Bool :=
     declarations of the emitted file carry the Go types of the fields -/
 def typedTablesOK (env : Env) (file : AFile) (n : Nat) : Bool :=
   let F := (goFilePreSt env file n).1
-  (goodStructs env).all (structTyTableOK env F) && (collectRuntimeTypes file).tuples.all (tupleTyTableOK env F) &&
+  (goodStructs env).all (structTyTableOK env F) && (collectRuntimeTypes env file).tuples.all (tupleTyTableOK env F) &&
   (goodEnums env).all (enumTyTableOK env F)
 
 end Goml.GoFrag
